@@ -17,7 +17,10 @@ CLAIMED = {
     "C17": ("symbolic execution of the Python source of strax's njit interval kernels on z3-backed proxy arrays; "
             "per-path unsat verdicts against quadratic set definitions; witnesses replayed on compiled code; machine width of "
             "length*dt in strax.endtime decided per region by native replay of the path witnesses (proxies are mathematical "
-            "integers); sampled unsat verdicts re-decided by z3 4.8.12 and cvc5 1.0.3",
+            "integers); sort_by_time: int64 fit of the combined sort key proved at the call of the real kernel for a symbolic time "
+            "range up to 2^63 and a symbolic channel count, field-width edges and tie stability by native witness replay, "
+            "rejection of unsorted input also replayed in an interpreter started with -O; "
+            "sampled unsat verdicts re-decided by z3 4.8.12 and cvc5 1.0.3",
             "Bounded model checking by per-path symbolic execution of the real functions: for every array size within "
             "the bound, every placement of the intervals on Z is covered by an explored path whose obligations z3 "
             "answers unsat. Right level because the kernels are integer comparison logic where the rare coincidences "
